@@ -207,6 +207,7 @@ func runC09(c *Ctx) {
 	// a recovered panic would turn an aborted generation into status zero
 	checkExitCodes(c, p, "R09.6")
 	checkPackagePath(c, p, "R09.7")
+	checkModuleSearch(c, p, "R09.7")
 	checkEmovesTerminates(c, p, "R09.8")
 	// every loop and recursion of the generator is of a terminating kind (table in c09term.go); the worklist
 	// arguments rest on the step rules: a round is repeated only when something new was added
@@ -734,7 +735,10 @@ func checkPackagePath(c *Ctx, p *Prog, rule string) {
 	for _, wd := range []struct {
 		name          string
 		sameDir, fail bool
-	}{{"output directory = working directory", true, false}, {"output directory elsewhere", false, false}, {"output directory elsewhere, no module / GOPATH root found", false, true}} {
+		malformed     bool
+	}{{"output directory = working directory", true, false, false}, {"output directory elsewhere", false, false, false}, {"output directory elsewhere, no module / GOPATH root found", false, true, false},
+		{"output directory whose path is not a well-formed import path", false, false, true}, {"-p value that is not a well-formed import path", true, false, true}} {
+		checked := false
 		var calls []string
 		sm := map[string]Summary{
 			"*.Bool": func(r *Run, cc *ssa.CallCommon, args []Val) (Val, error) {
@@ -762,6 +766,13 @@ func checkPackagePath(c *Ctx, p *Prog, rule string) {
 				}
 				return VTuple{VOpq{"pkgof(" + render(args[0]) + ")"}, VIface{}}, nil
 			},
+			"*.CheckImportPath": func(r *Run, cc *ssa.CallCommon, args []Val) (Val, error) {
+				checked = true
+				if wd.malformed {
+					return VIface{Dyn: types.Typ[types.String], V: VOpq{"malformed"}}, nil
+				}
+				return VIface{}, nil
+			},
 			"*.Errorf": func(r *Run, cc *ssa.CallCommon, args []Val) (Val, error) {
 				return VIface{Dyn: types.Typ[types.String], V: VOpq{"error"}}, nil
 			},
@@ -779,6 +790,9 @@ func checkPackagePath(c *Ctx, p *Prog, rule string) {
 		var ok bool
 		var want string
 		switch {
+		case wd.malformed:
+			want = "an error is returned: no import of <package>/token can resolve"
+			ok = out.Term == "return" && checked && len(out.Results) == 1 && out.Results[0] != "nil" && !strings.Contains(out.Results[0], "nil:")
 		case wd.sameDir:
 			want = "the package stays what -p says (default: the working directory's package)"
 			ok = out.Term == "return" && (pkg == "" || pkg == "flagvalue(-p)") // not overwritten
@@ -791,4 +805,56 @@ func checkPackagePath(c *Ctx, p *Prog, rule string) {
 		}
 		stepOb(c, out, rule, "config getFlags: "+wd.name, ok, fmt.Sprintf("%s this.pkg=%q calls=%v %s; required: %s — the generated files import <pkg>/token, <pkg>/errors, ... and are written below the output directory", termOf(out), pkg, calls, out.Undecided, want), p.FnPos(fn))
 	}
+}
+
+// R09.7b: the module whose path prefixes the import paths is the module the OUTPUT directory belongs to: the
+// search for go.mod starts at the directory defaultPackage was asked about, not at the process's directory
+// (a directory below the working directory may be a module of its own).
+func checkModuleSearch(c *Ctx, p *Prog, rule string) {
+	dp := p.Func("internal/config", "defaultPackage")
+	cm := p.Func("internal/config", "currentModule")
+	if dp == nil || cm == nil {
+		c.Undecided(rule, "config: module search", "defaultPackage / currentModule not found")
+		return
+	}
+	passes := false
+	for _, b := range dp.Blocks {
+		for _, in := range b.Instrs {
+			if call, ok := in.(*ssa.Call); ok && call.Call.StaticCallee() == cm {
+				for _, a := range call.Call.Args {
+					if pa, ok := a.(*ssa.Parameter); ok && pa.Parent() == dp {
+						passes = true
+					}
+				}
+			}
+		}
+	}
+	getwd := false
+	for _, b := range cm.Blocks {
+		for _, in := range b.Instrs {
+			if call, ok := in.(*ssa.Call); ok {
+				if f := call.Call.StaticCallee(); f != nil && f.String() == "os.Getwd" {
+					getwd = true
+				}
+			}
+		}
+	}
+	startsAtParam := false
+	for _, h := range loopHeaders(cm) {
+		for _, in := range h.Instrs {
+			phi, ok := in.(*ssa.Phi)
+			if !ok {
+				break
+			}
+			for k, e := range phi.Edges {
+				if !h.Dominates(h.Preds[k]) {
+					if pa, ok := e.(*ssa.Parameter); ok && pa.Parent() == cm {
+						startsAtParam = true
+					}
+				}
+			}
+		}
+	}
+	c.Ob(rule, "config: go.mod is searched upwards from the directory whose package is wanted", passes && startsAtParam && !getwd,
+		fmt.Sprintf("defaultPackage hands its directory to currentModule=%v; the search starts at that parameter=%v; currentModule asks os.Getwd=%v — required true, true, false: with go.mod (module demo) and tools/go.mod (module other), `gocc -o tools/out` must generate imports of other/out/..., not demo/tools/out/...", passes, startsAtParam, getwd), p.FnPos(cm))
 }
